@@ -209,4 +209,79 @@ theorem posmapOf_list (old new : List Nat) :
   unfold posmapOf
   exact mapE_total _ _ _ (fun _ _ => rfl)
 
+/-! ### Lookups of every span kind; the copy loop treats values as opaque tokens -/
+
+/-- Whenever the lookup of a span kind answers, the answer is the first index (`none` = a new period): the kinds
+    differ only in WHEN they answer (the NumPy fallback locator refuses duplicate labels). -/
+theorem positionOf_ok (kind : SpanKind) (old : List Nat) (l : Nat) (p : Option Nat)
+    (h : positionOf kind old l = .ok p) : p = firstIndex l old := by
+  cases kind with
+  | list => simp [positionOf] at h; exact h.symm
+  | numpy =>
+    unfold positionOf at h
+    simp only at h
+    split at h
+    · simp at h; exact h.symm
+    · simp at h
+
+theorem positionOf_numpy_error (old : List Nat) (l : Nat) (e : Err) (h : positionOf .numpy old l = .error e) :
+    e = .keyError ∧ 1 < countEq l old := by
+  unfold positionOf at h
+  simp only at h
+  split at h
+  · simp at h
+  · rename_i hc
+    simp at h
+    exact ⟨h.symm, by omega⟩
+
+theorem posmapOf_ok (kind : SpanKind) (old new : List Nat) (pm : List (Option Nat))
+    (h : posmapOf kind old new = .ok pm) : pm = new.map fun l => firstIndex l old := by
+  unfold posmapOf at h
+  obtain ⟨hl, hj⟩ := mapE_ok _ _ _ h
+  apply List.ext_getElem?
+  intro j
+  simp only [List.getElem?_map]
+  cases hn : new[j]? with
+  | none =>
+    have : pm[j]? = none := by
+      rw [List.getElem?_eq_none_iff] at hn ⊢
+      omega
+    simp [this]
+  | some l =>
+    obtain ⟨y, hy, hfy⟩ := hj j l hn
+    rw [hy, positionOf_ok kind old l y hfy]
+    rfl
+
+theorem setAt_map {α β : Type} (g : α → β) : ∀ (xs : List α) (i : Nat) (v : α),
+    (Fsic.setAt xs i v).map g = Fsic.setAt (xs.map g) i (g v) := by
+  intro xs
+  induction xs with
+  | nil => intro i v; rfl
+  | cons x xs ih =>
+    intro i v
+    cases i with
+    | zero => rfl
+    | succ i => simp [Fsic.setAt, ih]
+
+/-- **Naturality of the copy loop**: relabelling every value (of the old series and of the fill) by any function
+    `g` and then copying is the same as copying and then relabelling — the loop moves values, it never looks at
+    them. -/
+theorem writeAll_map (g : Val → Val) (src : List Val) : ∀ (ps : List (Option Nat)) (i : Nat) (dst : List Val),
+    writeAll (src.map g) ps i (dst.map g) = (writeAll src ps i dst).map (List.map g) := by
+  intro ps
+  induction ps with
+  | nil => intro i dst; rfl
+  | cons p ps ih =>
+    intro i dst
+    cases p with
+    | none => simp only [writeAll]; exact ih (i + 1) dst
+    | some k =>
+      simp only [writeAll, List.getElem?_map]
+      cases hs : src[k]? with
+      | none => rfl
+      | some v =>
+        simp only [Option.map_some]
+        rw [← setAt_map g dst i v]
+        exact ih (i + 1) _
+
 end Fsic.Reindex
